@@ -6,56 +6,9 @@
 // "Exactly": the reported cost is the token cost of some derivation tree of the rule, no derivation
 // tree of the rule is cheaper, a rule without any derivation tree gets u16::MAX, and the fixed-point
 // loop terminates.
-pub type TC = Seq<u8>;
 pub type CS = Seq<Option<u16>>;
 
-// ---------------- specification: derivation trees of bounded height ----------------
-// (the two predicates below are the triggers of the existentials: a recursive function cannot be one)
-pub open spec fn prod_of(g: &YaccGrammar, r: int, p: int) -> bool { 0 <= p < g.nprods() && g.rule_of()[p].0 == r }
-pub open spec fn part_of(c1: int, c: int) -> bool { 0 <= c1 <= c }
-// derives(r, c, h): rule r has a derivation tree of height <= h whose tokens cost c in total
-pub open spec fn derives(g: &YaccGrammar, tc: TC, r: int, c: int, h: nat) -> bool
-    decreases h, 0nat
-{
-    h > 0 && exists|p: int| #[trigger] prod_of(g, r, p) && pderives(g, tc, p, g.prods()[p].len() as int, c, (h - 1) as nat)
-}
-// the first k symbols of production p derive token strings of total cost c, each rule by a tree of height <= h
-pub open spec fn pderives(g: &YaccGrammar, tc: TC, p: int, k: int, c: int, h: nat) -> bool
-    decreases h, (if k >= 0 { k + 1 } else { 0 }) as nat
-{
-    if k <= 0 { c == 0 } else {
-        exists|c1: int| #[trigger] part_of(c1, c) && pderives(g, tc, p, k - 1, c1, h) && match g.prods()[p][k - 1] {
-            Symbol::Token(t) => c - c1 == tc[t.0 as int],
-            Symbol::Rule(q) => derives(g, tc, q.0 as int, c - c1, h),
-        }
-    }
-}
-pub proof fn lemma_mono(g: &YaccGrammar, tc: TC, r: int, c: int, h: nat, h2: nat)
-    requires derives(g, tc, r, c, h), h <= h2
-    ensures derives(g, tc, r, c, h2)
-    decreases h, 0nat
-{
-    let p = choose|p: int| #[trigger] prod_of(g, r, p) && pderives(g, tc, p, g.prods()[p].len() as int, c, (h - 1) as nat);
-    lemma_pmono(g, tc, p, g.prods()[p].len() as int, c, (h - 1) as nat, (h2 - 1) as nat);
-}
-pub proof fn lemma_pmono(g: &YaccGrammar, tc: TC, p: int, k: int, c: int, h: nat, h2: nat)
-    requires pderives(g, tc, p, k, c, h), h <= h2
-    ensures pderives(g, tc, p, k, c, h2)
-    decreases h, (if k >= 0 { k + 1 } else { 0 }) as nat
-{
-    if k > 0 {
-        let c1 = choose|c1: int| #[trigger] part_of(c1, c) && pderives(g, tc, p, k - 1, c1, h) && match g.prods()[p][k - 1] {
-            Symbol::Token(t) => c - c1 == tc[t.0 as int],
-            Symbol::Rule(q) => derives(g, tc, q.0 as int, c - c1, h),
-        };
-        lemma_pmono(g, tc, p, k - 1, c1, h, h2);
-        match g.prods()[p][k - 1] {
-            Symbol::Token(t) => {}
-            Symbol::Rule(q) => { lemma_mono(g, tc, q.0 as int, c - c1, h, h2); }
-        }
-    }
-}
-
+//@use units/c17_derives.inc
 // ---------------- the fixed point: no production offers its rule anything cheaper ----------------
 // the rules among the first k symbols of production p all have a cost
 pub open spec fn known(g: &YaccGrammar, C: CS, p: int, k: int) -> bool {
